@@ -65,14 +65,14 @@ def main():
             return 3
         touched = sorted(set(os.path.dirname(l[6:]) for l in open(patch) if l.startswith("+++ b/")))
         if verify:
-            rc, out = sh("go build ./weed/...", wt)
+            rc, out = sh("go build -trimpath ./weed/...", wt)
             res["ran"].append({"cmd": "go build ./weed/...", "rc": rc})
             if rc != 0:
                 print("SEED %s-%s: does not build: %s" % (pid, var, out[-500:]))
                 return 3
             # 2. existing tests of touched packages (TestPositioning fails on the unchanged tree already)
             pk = " ".join("./" + t + "/" for t in touched if t.startswith("weed"))
-            rc, out = sh("go test -vet=off -count=1 %s 2>&1 | grep -v '^ok\\|no test files' | head -40" % pk, wt)
+            rc, out = sh("go test -trimpath -vet=off -count=1 %s 2>&1 | grep -v '^ok\\|no test files' | head -40" % pk, wt)
             fails = [l for l in out.splitlines() if l.startswith("--- FAIL") and "TestPositioning" not in l and "TestFastLoadingNeedleMapMetrics" not in l]  # the latter panics ~20% of runs on the unchanged tree (rand.Int63n(0))
             res["ran"].append({"cmd": "go test -vet=off -count=1 " + pk, "failed_tests": fails})
             if fails:
@@ -84,6 +84,8 @@ def main():
                 ok = False
             else:
                 place, run = m1.group(1).strip(), m2.group(1).strip()
+                if run.startswith("go test ") and "-trimpath" not in run:
+                    run = "go test -trimpath " + run[len("go test "):]  # share the build cache between scratch worktrees
                 demo_src = os.path.join(src, os.path.basename(place))
                 if not os.path.exists(demo_src):
                     cands = [f for f in os.listdir(src) if f.endswith(".go")]
